@@ -14,15 +14,90 @@ use crate::shape::{ShapeAir, ShapeInputs};
 use crate::stark::{options_of, Scenario};
 use crate::toy::{Toy, P};
 
+/// The same over an extension E of ToyField: base-field main trace, extension-valued coefficients, random elements, auxiliary
+/// columns, evaluation points and composition values (coefficient lists), for Trace_CompX.tla.
+fn comp_ext<E: FieldElement<BaseField = Toy>>(sc: &Scenario, deg: usize) -> Value {
+    let mut rng = Rng(sc.seed ^ 0xce);
+    let xe = |rng: &mut Rng, nonzero: bool| -> E {
+        loop {
+            let bs: Vec<Toy> = (0..E::EXTENSION_DEGREE).map(|_| Toy::new(rng.below(P))).collect();
+            let e = E::slice_from_base_elements(&bs)[0];
+            if !nonzero || (e != E::ZERO && e != E::ONE) {
+                return e;
+            }
+        }
+    };
+    let cj = |e: E| -> Vec<u64> { (0..E::EXTENSION_DEGREE).map(|i| e.base_element(i).v()).collect() };
+    let cols = sc.shape.build_trace::<Toy>(sc.seed, sc.free_tail, false);
+    let inputs = ShapeInputs::from_trace(&sc.shape, &cols);
+    let air = ShapeAir::<Toy>::new(sc.shape.trace_info(), inputs.clone(), options_of(sc));
+    let has_aux = sc.shape.aux_width() > 0;
+    let log_n = sc.shape.n.ilog2() as usize;
+    let nt = air.context().num_transition_constraints();
+    let na = air.context().num_assertions();
+    let cct: Vec<E> = (0..nt).map(|_| xe(&mut rng, true)).collect();
+    let ccb: Vec<E> = (0..na).map(|_| xe(&mut rng, true)).collect();
+    let rands: Vec<E> = (0..sc.shape.aux_rands).map(|_| xe(&mut rng, true)).collect();
+    let lrands: Vec<E> = if sc.shape.lagrange { (0..log_n).map(|_| xe(&mut rng, true)).collect() } else { vec![] };
+    let lct: Vec<E> = if sc.shape.lagrange { (0..log_n).map(|_| xe(&mut rng, true)).collect() } else { vec![] };
+    let lcb = xe(&mut rng, true);
+    let coeffs = ConstraintCompositionCoefficients {
+        transition: cct.clone(),
+        boundary: ccb.clone(),
+        lagrange: if sc.shape.lagrange { Some(LagrangeConstraintsCompositionCoefficients { transition: lct.clone(), boundary: lcb }) } else { None },
+    };
+    let domain = StarkDomain::new(&air);
+    let main = ColMatrix::new(cols.clone());
+    let (mut trace_lde, _polys) = DefaultTraceLde::<E, Blake3_256<Toy>>::new(air.trace_info(), &main, &domain);
+    let aux_cols: Vec<Vec<E>> = if has_aux { sc.shape.build_aux::<Toy, E>(&cols, &rands, if sc.shape.lagrange { Some(&lrands) } else { None }) } else { vec![] };
+    let aux_rand = if has_aux {
+        trace_lde.set_aux_trace(&ColMatrix::new(aux_cols.clone()), &domain);
+        Some(AuxRandElements::new_with_lagrange(rands.clone(), if sc.shape.lagrange { Some(LagrangeKernelRandElements::new(lrands.clone())) } else { None }))
+    } else {
+        None
+    };
+    let evaluator = DefaultConstraintEvaluator::<ShapeAir<Toy>, E>::new(&air, aux_rand, coeffs);
+    let cp_trace = evaluator.evaluate(&trace_lde, &domain);
+    let ccols = air.context().num_constraint_composition_columns();
+    let cp = CompositionPoly::new(cp_trace, &domain, ccols);
+    let big = (sc.shape.n * sc.opts.blowup) as u64;
+    let mut points: Vec<Value> = vec![];
+    while points.len() < 2 {
+        let x = xe(&mut rng, true);
+        if x.base_element(1) == Toy::ZERO || x.exp(big.into()) == E::ONE {
+            continue; // a proper extension element outside the domains
+        }
+        let h: Vec<Vec<u64>> = cp.evaluate_at(x).iter().map(|e| cj(*e)).collect();
+        points.push(json!({"x": cj(x), "h": h}));
+    }
+    let cjv = |v: &[E]| v.iter().map(|e| cj(*e)).collect::<Vec<_>>();
+    json!({"ev": "comp", "deg": deg, "id": sc.id, "n": sc.shape.n, "width": sc.shape.width, "degs": sc.shape.degs, "pcol": sc.shape.pcol, "neg": sc.shape.neg,
+           "mode": sc.shape.mode, "exempt": sc.shape.exempt, "ccols": ccols,
+           "periodic": sc.shape.periodic_values::<Toy>().iter().map(|c| c.iter().map(|e| e.v()).collect::<Vec<_>>()).collect::<Vec<_>>(),
+           "asserts": sc.shape.asserts, "avalues": inputs.values.iter().map(|v| v.iter().map(|e| e.v()).collect::<Vec<_>>()).collect::<Vec<_>>(),
+           "trace": cols.iter().map(|c| c.iter().map(|e| e.v()).collect::<Vec<_>>()).collect::<Vec<_>>(),
+           "cct": cjv(&cct), "ccb": cjv(&ccb),
+           "aux_degs": sc.shape.aux_degs, "lagrange": sc.shape.lagrange, "aux_asserts": sc.shape.aux_asserts,
+           "aux": aux_cols.iter().map(|c| cjv(c)).collect::<Vec<_>>(),
+           "rands": cjv(&rands), "lrands": cjv(&lrands), "lct": cjv(&lct), "lcb": cj(lcb), "nmain_asserts": sc.shape.asserts.len(),
+           "g": Toy::get_root_of_unity(sc.shape.n.ilog2()).v(), "points": points})
+}
+
 pub fn main(args: &[String]) -> i32 {
     let path = arg_value(args, "--scenarios").expect("--scenarios");
     let outp = arg_value(args, "--out").expect("--out");
+    let deg: usize = arg_value(args, "--deg").and_then(|s| s.parse().ok()).unwrap_or(1);
     let f = std::io::BufReader::new(std::fs::File::open(path).expect("open"));
     let scs: Vec<Scenario> = f.lines().map(|l| l.unwrap()).filter(|l| !l.trim().is_empty()).map(|l| serde_json::from_str(&l).expect("scenario")).collect();
     let mut out = std::io::BufWriter::new(std::fs::File::create(outp).unwrap());
     let mut panics: Vec<Value> = vec![];
     for sc in &scs {
         let r = guarded(|| {
+            if deg == 2 {
+                return comp_ext::<winter_math::fields::QuadExtension<Toy>>(sc, 2);
+            } else if deg == 3 {
+                return comp_ext::<winter_math::fields::CubeExtension<Toy>>(sc, 3);
+            }
             let mut rng = Rng(sc.seed ^ 0xc0);
             let cols = sc.shape.build_trace::<Toy>(sc.seed, sc.free_tail, false);
             let inputs = ShapeInputs::from_trace(&sc.shape, &cols);
